@@ -78,7 +78,8 @@ ASSUMPTIONS = [
     "no two parameters of one object alias the same mutable estimator",
     "13 classes cannot be imported here (soft dependencies): constructor contract, guards and fit writes are decided statically only; classes needing the two unbuilt extension modules are imported over placeholder modules and never fitted",
 ]
-RULE = ("one table case per estimator class of the package (all, every run); tree cases = fixed-order exhaustive scope "
+RULE = ("one table case per estimator class of the package (all, every run; unfitted calls also for every boolean / option "
+        "parameter off its default, constructed, via set_params and on a clone of the fitted variant); tree cases = fixed-order exhaustive scope "
         "(every key of every depth-2 composition of the composite classes, quick: seed-rotated slice) + random compositions to depth 3 "
         "with random histories of get/set/clone/apply + malformed keys. distinct by driver line; non-trivial = class observed "
         "dynamically (table) / at least one successful set_params or clone (tree)")
@@ -495,6 +496,8 @@ POOL = {
     "MultiplexForecaster": {"est": [], "named": "forecasters"},
     "OnlineEnsembleForecaster": {"est": [], "named": "forecasters"},
     "ColumnEnsembleClassifier": {"est": [], "named": "estimators", "triples": True, "pin": {"remainder": "drop"}},
+    # scikit-learn's own _BaseComposition protocol (no sktime `_check_names`)
+    "FeatureUnion": {"est": [], "named": "transformer_list", "checknames": False},
 }
 COMP_NAMES = ["a", "b", "c", "f1", "t"]
 
@@ -644,7 +647,7 @@ def gen_ops(rng, gen, tree, pool, n_ops, allow_bad=True):
             ops.append("clone")
         elif r < 0.9:
             ops.append("fitted")
-        elif r < 0.95 and "named" in root_spec:
+        elif r < 0.95 and "named" in root_spec and root_spec.get("checknames", True):
             names = rng.choice([["a", "b"], ["a", "a"], ["x__y"], [root_spec["named"]], ["n_jobs", "z"], [], ["q"]])
             ops.append("checknames:" + (",".join(names) or "-"))
         else:
@@ -687,6 +690,7 @@ class World:
         self.ids = {}
         self.keep = []
         self.classes = {}
+        self.lists = []          # every component list handed to a constructor / set_params: (list, its content then)
 
     def cls(self, key):
         if key not in self.classes:
@@ -703,8 +707,11 @@ class World:
             return atom_value(node[1])
         if node[0] == "n":
             if triples:
-                return [(nm, self.build(v), 0) for nm, v in node[1]]
-            return [(nm, self.build(v)) for nm, v in node[1]]
+                lst = [(nm, self.build(v), 0) for nm, v in node[1]]
+            else:
+                lst = [(nm, self.build(v)) for nm, v in node[1]]
+            self.lists.append((lst, self.ref(lst)))
+            return lst
         _, nid, key, ps = node[:4]
         spec = self.pool[key]
         kw = {p: self.build(v, triples=bool(spec.get("triples")) and p == spec.get("named")) for p, v in ps.items()}
@@ -860,6 +867,18 @@ def real_tree(case):
     D = R.data()
     from sklearn.base import clone
     import warnings
+    # ---- aliasing clauses around set_params (the caller's objects are not the estimator's to rewrite)
+    alias = None
+    if any(o.startswith("set:") for o in case["ops"]):
+        try:
+            snap = dict(obj.get_params(deep=False))                 # (i) what a caller saves before modifying
+            snap_refs = {k: W.ref(v) for k, v in snap.items()}
+            twin = type(obj)(**snap)                                # (iii) a second composite from the same objects
+            # (its own parameters only: component OBJECTS are shared by construction and may be reconfigured)
+            twin_refs = {k: W.ref(v) for k, v in twin.get_params(deep=False).items()}
+            alias = (snap, snap_refs, twin, twin_refs, obj)
+        except BaseException:
+            alias = None
     for op in case["ops"]:
         name, _, arg = op.partition(":")
         try:
@@ -923,7 +942,39 @@ def real_tree(case):
             if isinstance(e, (KeyboardInterrupt, SystemExit)):
                 raise
             outs.append("E:op-%s:%s" % (name, canon_err(e)))
+    if alias is not None:
+        outs.extend(_alias_verdict(W, alias))
     return " ; ".join(outs)
+
+
+def _alias_verdict(W, alias):
+    """[] when nothing the caller holds was rewritten by set_params, else one `ALIAS:<kind>:<where>` entry"""
+    snap, snap_refs, twin, twin_refs, obj0 = alias
+    bad = []
+    try:
+        for k, v in snap.items():                                   # (i) the saved snapshot still says what it said
+            if W.ref(v) != snap_refs[k]:
+                bad.append("ALIAS:snapshot-rewritten:%s" % k)
+                break
+        if not bad:
+            for lst, r0 in W.lists:                                 # (ii) the lists the caller passed in
+                if W.ref(lst) != r0:
+                    bad.append("ALIAS:caller-list-rewritten:%s" % r0.replace(" ", ""))
+                    break
+        if not bad:
+            now = {k: W.ref(v) for k, v in twin.get_params(deep=False).items()}
+            if now != twin_refs:                                    # (iii) the other composite built from the same objects
+                diff = sorted(set(now) ^ set(twin_refs)) or sorted(k for k in now if now[k] != twin_refs.get(k))
+                bad.append("ALIAS:second-composite-changed:%s" % ",".join(diff[:3]))
+        if not bad:
+            obj0.set_params(**snap)                                 # (i) save / modify / restore gives the original back
+            back = {k: W.ref(v) for k, v in obj0.get_params(deep=False).items()}
+            if back != snap_refs:
+                diff = sorted(k for k in back if back[k] != snap_refs.get(k))
+                bad.append("ALIAS:restore-differs:%s" % ",".join(diff[:3]))
+    except BaseException as e:
+        bad.append("ALIAS:check-raised:%s" % canon_err(e))
+    return bad
 
 
 def _safe_fitted(obj):
@@ -1061,6 +1112,11 @@ def oracle_tree(case, real):
         return fails
     outs = real.split(" ; ")
     cur_tree = case["tree"]
+    for o_ in outs:
+        if o_.startswith("ALIAS:"):
+            kind = o_.split(":")[1]
+            fails.append(("%s:alias:%s" % (root, kind),
+                          "set_params on %s rewrote an object the caller holds (%s): history %s" % (root, o_, " ".join(case["ops"])[:300])))
     # nested form reads the component's parameter: get_params(deep=True) of the untouched composition
     if case["ops"] and case["ops"][0] == "get:T" and outs and not outs[0].startswith("E:"):
         try:
@@ -1221,6 +1277,9 @@ def features(case, real):
                     f.append("guard:observed-NF-but-not-proved")
         if r["fit"] != "skip":
             f.append("fit:ran")
+        nv = (_PROBE_CACHE.get(case["cls"]) or {}).get("nvariants", 0)
+        if nv:
+            f.extend(["unfitted-calls:parameter-variant"] * nv)
         for p in st["params"]:
             if st["ctor"][p] != "S":
                 f.append("ctor-static:" + st["ctor"][p])
